@@ -80,6 +80,16 @@ func c04Jobs(tier string) []string {
 	// (RFC 6691: the data length is reduced by the options the sender includes)
 	add("or=w,devs=kwhl,mss=536,ws=-1,ts=1,w=536+1100,b=1", 1)
 	add("or=w,devs=kwhle,mss=88,ws=2,ts=1,psack=1,sack=1,pd=50+50,w=88+300,b=1", 1)
+	// the peer's MSS just above what the local MTU leaves once options are counted, and a
+	// path-MTU report that lowers the MTU by less than the option length
+	add("or=w,devs=kwhl,mss=1465,ws=-1,ts=1,w=1465+3000,b=1", 1)
+	add("or=w,devs=kwhle,mss=1472,ws=2,ts=1,psack=1,sack=1,pd=50+50,w=1472+3000,b=1", 1)
+	add("or=w,devs=kwhlp,mss=1460,ws=-1,ts=1,w=1448+3000,ptb=1492,b=1", 2)
+	// the peer's application does not read (fixed right edge, shrinking window) and the network
+	// delivers a stale copy of its first ACK after newer ones: the old, larger window must not
+	// be applied to the newer acknowledgement number
+	add("or=w,devs=z,mss=100,ws=-1,pwnd=300,pfix=1,w=500,b=1", 1)
+	add("or=sw,devs=zkhl,mss=100,ws=2,pwnd=1000,pfix=1,w=300+900,b=1", 2)
 	// a loss and a path-MTU report in one history (retransmissions must respect the new MTU)
 	add(base+",mss=88,ws=-1,w=88+89+440,ptb=68,b=2", 16)
 	if tier == "thorough" {
